@@ -1,12 +1,25 @@
 #!/bin/bash
-# build.sh — full offline build: Coq development (.vo, never -vos), extraction, OCaml driver.
-set -e
+# build.sh [Cnn] — offline build.
+#   no argument : regenerate gen/*.v from /repo, build the whole Coq development (.vo, never -vos),
+#                 extract, build the OCaml driver            (MANIFEST.setup_cmd)
+#   Cnn         : regenerate gen/*.v, build only what that property needs: the extraction (models and
+#                 specs) + props/Cnn.vo and its proof closure, and the driver. A proof that breaks for
+#                 another property therefore never disturbs this one.
 cd "$(dirname "$0")"
 J=${VERIF_JOBS:-16}
-( cd coq
-  if [ ! -f Makefile ] || [ _CoqProject -nt Makefile ]; then coq_makefile -f _CoqProject -o Makefile >/dev/null; fi
+PY=/venv/bin/python
+export VERIF_REPO=${VERIF_REPO:-/repo}
+$PY translator/gen_unicode.py >/dev/null || { echo "BUILD-FAILED translator gen_unicode"; exit 2; }
+$PY translator/gen_cli.py >/dev/null || { echo "BUILD-FAILED translator gen_cli"; exit 2; }
+cd coq
+if [ ! -f Makefile ] || [ _CoqProject -nt Makefile ]; then coq_makefile -f _CoqProject -o Makefile >/dev/null; fi
+if [ -n "$1" ]; then
+  timeout 3000 make -j"$J" extract/Extract.vo >build.log 2>&1 || { tail -40 build.log; echo "BUILD-FAILED coq-extract"; exit 2; }
+  timeout 3000 make -j"$J" "props/$1.vo" >build_$1.log 2>&1 || { tail -40 build_$1.log; echo "BUILD-FAILED coq-props $1"; PROPFAIL=1; }
+else
   timeout 3000 make -j"$J" >build.log 2>&1 || { tail -40 build.log; echo "BUILD-FAILED coq"; exit 2; }
-)
+fi
+cd ..
 mkdir -p ocaml/_build
 if [ ! -x ocaml/driver ] || [ coq/extract/model.ml -nt ocaml/driver ] || [ ocaml/driver.ml -nt ocaml/driver ]; then
   cp coq/extract/model.ml coq/extract/model.mli ocaml/driver.ml ocaml/_build/
@@ -14,4 +27,5 @@ if [ ! -x ocaml/driver ] || [ coq/extract/model.ml -nt ocaml/driver ] || [ ocaml
       || timeout 600 ocamlfind ocamlopt -w -a model.mli model.ml driver.ml -o ../driver 2>build.log ) \
       || { tail -40 ocaml/_build/build.log; echo "BUILD-FAILED ocaml"; exit 2; }
 fi
+if [ -n "$PROPFAIL" ]; then exit 3; fi
 echo "BUILD-OK"
